@@ -345,19 +345,11 @@ func c18Check(g *c18Graph, m *c18Model, errs []ErrRec) *Violation {
 	}
 	gotDangling := map[[2]string]int{}
 	var cycles []ErrRec
-	stubLine := map[int]bool{}
-	for _, j := range g.Jobs {
-		if j.Stub != "" {
-			stubLine[j.Line] = true
-		}
-	}
+	var cyclePath []string
 	for _, e := range errs {
-		if e.Kind == "syntax-check" && stubLine[e.Line] {
-			continue // what the parser says about the unwritten body of a stub job
-		}
 		if e.Kind != "job-needs" {
-			// the generated workflows are otherwise clean
-			return &Violation{Oracle: "clean-otherwise", Class: "foreign:" + e.Kind, Message: "unexpected diagnostic on a generated needs-graph workflow: " + e.String()}
+			// diagnostics of other rules (e.g. what the parser says about a stub job) are not this property's business
+			continue
 		}
 		if mm := reDangling.FindStringSubmatch(e.Msg); mm != nil {
 			key := [2]string{strings.ToLower(mm[1]), strings.ToLower(mm[2])}
@@ -368,14 +360,49 @@ func c18Check(g *c18Graph, m *c18Model, errs []ErrRec) *Violation {
 			}
 			continue
 		}
-		if reCycle.MatchString(e.Msg) {
-			cycles = append(cycles, e)
+		if mm := reCycle.FindStringSubmatch(e.Msg); mm != nil {
+			p, err := parseCyclePath(mm[1])
+			if err != nil {
+				return &Violation{Oracle: "cycle-real", Class: "cycle-unparsable", Message: "printed cycle does not parse: " + err.Error() + ": " + e.Msg}
+			}
+			cycles, cyclePath = append(cycles, e), p
 			continue
 		}
 		if reDupNeeds.MatchString(e.Msg) {
 			continue // duplicates inside one needs list: not constrained by the property
 		}
-		return &Violation{Oracle: "known-message", Class: "unknown-message", Message: "unrecognised job-needs diagnostic: " + e.String()}
+		// A message this harness does not know word for word (the wording is not part of the
+		// property): read it by its quoted names.
+		low := strings.ToLower(e.Msg)
+		var names []string
+		for _, q := range reQuoted.FindAllString(e.Msg, -1) {
+			names = append(names, strings.Trim(q, `"`))
+		}
+		switch {
+		case strings.Contains(low, "cycl"):
+			var p []string
+			for _, n := range names {
+				if _, ok := lineOf[strings.ToLower(n)]; ok {
+					p = append(p, n)
+				}
+			}
+			cycles, cyclePath = append(cycles, e), p
+		case strings.Contains(low, "duplicat"):
+		case strings.Contains(low, "not exist") || strings.Contains(low, "undefined") || strings.Contains(low, "not defined") || strings.Contains(low, "unknown"):
+			ref := ""
+			for _, n := range names {
+				if _, ok := lineOf[strings.ToLower(n)]; ok && ref == "" {
+					ref = strings.ToLower(n)
+				} else if ref != "" && strings.ToLower(n) != "needs" {
+					gotDangling[[2]string{ref, strings.ToLower(n)}]++
+					if e.Line != lineOf[ref] {
+						return &Violation{Oracle: "dangling-position", Class: "dangling-position",
+							Message: fmt.Sprintf("undefined-job diagnostic is not located at the referring job %q (line %d): %s", ref, lineOf[ref], e.String())}
+					}
+					break
+				}
+			}
+		}
 	}
 	// every dangling reference reported at least once and at most once per textual reference; nothing foreign
 	for key, refs := range m.dangling {
@@ -404,12 +431,21 @@ func c18Check(g *c18Graph, m *c18Model, errs []ErrRec) *Violation {
 		return &Violation{Oracle: "cycle-iff", Class: fmt.Sprintf("cycle-count-%d", min(len(cycles), 2)),
 			Message: fmt.Sprintf("graph has a cycle; expected exactly one cyclic-dependency diagnostic, got %d", len(cycles))}
 	}
-	path, err := parseCyclePath(reCycle.FindStringSubmatch(cycles[0].Msg)[1])
-	if err != nil {
-		return &Violation{Oracle: "cycle-real", Class: "cycle-unparsable", Message: "printed cycle does not parse: " + err.Error() + ": " + cycles[0].Msg}
-	}
-	if len(path) < 2 || path[0] != path[len(path)-1] {
+	path := cyclePath
+	if len(path) < 2 || !strings.EqualFold(path[0], path[len(path)-1]) {
 		return &Violation{Oracle: "cycle-real", Class: "cycle-not-closed", Message: "printed cycle does not return to its start: " + cycles[0].Msg}
+	}
+	// the direction the path is printed in is wording: every step must be an edge, all in one direction
+	fwd, bwd := true, true
+	for i := 0; i+1 < len(path); i++ {
+		a, b := strings.ToLower(path[i]), strings.ToLower(path[i+1])
+		fwd = fwd && m.edgeSet[[2]string{a, b}]
+		bwd = bwd && m.edgeSet[[2]string{b, a}]
+	}
+	if !fwd && bwd {
+		for i, j := 0, len(path)-1; i < j; i, j = i+1, j-1 {
+			path[i], path[j] = path[j], path[i]
+		}
 	}
 	seen := map[string]bool{}
 	for i := 0; i+1 < len(path); i++ {
